@@ -237,3 +237,94 @@ if __name__ == '__main__':
         for k, (n, s) in sorted(collect(cf.Program()).items()):
             if n:
                 print(n, k, [(l.split('/')[-1], t) for l, t in s][:6])
+
+
+# ------------------------------------------------------------------------------------------------------------------------------
+# O2: job->src is used together with its start offset
+
+OFF_BASELINE = os.path.join(os.path.dirname(BASELINE), 'src_offset_baseline.json')
+
+
+def _bare_src(e, out, covered=False):
+    """IMB_JOB.src references that are not an operand of an addition which also adds a *_start_src_offset_* field"""
+    e0 = cf.strip_casts(e)
+    if not isinstance(e0, dict):
+        return
+    if e0.get('k') == 'bin' and e0['op'] == '+':
+        has_off = any(nd.get('k') == 'mem' and re.search(r'start_src_offset|start_offset', nd.get('f') or '') for nd in cf.walk(e0))
+        _bare_src(e0['l'], out, covered or has_off)
+        _bare_src(e0['r'], out, covered or has_off)
+        return
+    if e0.get('k') == 'mem' and e0.get('f') == 'src' and 'IMB_JOB' in (e0.get('rec') or ''):
+        if not covered:
+            out.append(e0)
+        return
+    for key in ('l', 'r', 'e', 'b', 'i', 't', 'f', 'c', 'callee'):
+        v = e0.get(key)
+        if isinstance(v, dict):
+            _bare_src(v, out, False)
+    for a in e0.get('a', []) or []:
+        _bare_src(a, out, False)
+
+
+def bare_src_uses(P):
+    res = {}
+    seen = set()
+    for tu in P.tus():
+        for f in P.funcs(tu):
+            if (f.name, f.loc) in seen:
+                continue
+            seen.add((f.name, f.loc))
+            sites = []
+            for b, i, ev in f.events():
+                for key in ('e', 'rhs', 'val'):
+                    x = ev.get(key)
+                    if x:
+                        o = []
+                        _bare_src(x, o)
+                        sites += [ev['loc']] * len(o)
+                if ev['k'] == 'decl':
+                    for d in ev['d']:
+                        if d.get('init') is not None:
+                            o = []
+                            _bare_src(d['init'], o)
+                            sites += [ev['loc']] * len(o)
+            # null checks (`job->src == NULL`) are not data uses
+            for bid, bl in f.blocks.items():
+                pass
+            def _exprs(ev):
+                for key in ('e', 'rhs', 'val'):
+                    if ev.get(key):
+                        yield ev[key]
+                if ev['k'] == 'decl':
+                    for d in ev['d']:
+                        if d.get('init') is not None:
+                            yield d['init']
+            uses_src = sites or any(nd.get('k') == 'mem' and nd.get('f') == 'src' and 'IMB_JOB' in (nd.get('rec') or '')
+                                    for _, _, ev in f.events() for x in _exprs(ev) for nd in cf.walk(x))
+            if uses_src:
+                res[f.name] = (max(len(sites), res.get(f.name, (0, []))[0]), sites)
+    return res
+
+
+def write_offset_baseline(P):
+    cur = bare_src_uses(P)
+    with open(OFF_BASELINE, 'w') as fh:
+        json.dump({'what': 'per function: number of uses of IMB_JOB.src as data that do not add a *_start_src_offset_* field, on the reference tree',
+                   'functions': {k: v[0] for k, v in sorted(cur.items())}}, fh, indent=0, sort_keys=True)
+    return len(cur), sum(v[0] for v in cur.values())
+
+
+def rule_src_offset(chk, P, rid, floor=60):
+    r = chk.rule(rid, 'no function uses job->src as data without adding the job\'s start offset in more places than on the reference tree (every entry '
+                      'point must honour cipher_start_src_offset / hash_start_src_offset alike)', floor=floor)
+    if not os.path.exists(OFF_BASELINE):
+        chk.broken('source-offset baseline missing')
+        return
+    base = json.load(open(OFF_BASELINE))['functions']
+    for name, (n, sites) in sorted(bare_src_uses(P).items()):
+        if name not in base:
+            r.ok(name + ':new', 'not on the reference tree')
+            continue
+        r.check(n <= base[name], name, sites[0] if sites else name,
+                '%s uses job->src without a start offset in %d places (reference tree: %d): %s' % (name, n, base[name], ', '.join(s.split('/')[-1] for s in sites[:6])))
